@@ -216,7 +216,9 @@ func enumFaults(t *testing.T, first, last int, yield func(*c10Case) bool) {
 			case "Read":
 				classes = []string{"fatal", "deadline", "zero"}
 			case "WriteTo", "SetReadDeadline", "SetPacketFilter":
-				classes = []string{"fatal", "zero"}
+				// "fatal-timeout": the failure is a timeout of the operating system's (Timeout() is true, it matches
+				// os.ErrDeadlineExceeded); outside Read nothing makes that "no packet yet"
+				classes = []string{"fatal", "zero", "fatal-timeout"}
 			}
 			// k up to N+1: the (N+1)-th call is never reached (fault-not-reached path)
 			for k := 1; k <= c.N+1; k++ {
@@ -242,7 +244,7 @@ func TestC10Single(t *testing.T) {
 	if tier() == "thorough" {
 		ranges = [][2]int{{1, 3}, {1, 8}, {250, 255}, {2, 2}}
 	}
-	rec := NewRecorder("C10", "C10Single", fmt.Sprintf("fault enumeration: for every variant and TTL range in %v, one fault-free run counts the calls N of every operation of every handle, then EVERY single fault (sink/source factory, WriteTo, Read (failing at the beginning or at the end of the call), SetReadDeadline, SetPacketFilter incl. the second SACK filter, Close; k in 1..N+1; classes fatal / spurious deadline / zero-length) is injected; oracle: (nil, error wrapping the injected sentinel) for fatal, same-success-or-clean-failure for a spurious deadline, never a partial result, every handle closed exactly once, nothing used after Close or after return, no goroutine or fd left; non-trivial = the fault fired at k >= 2 or in filter/factory code; exhaustive over that product", ranges))
+	rec := NewRecorder("C10", "C10Single", fmt.Sprintf("fault enumeration: for every variant and TTL range in %v, one fault-free run counts the calls N of every operation of every handle, then EVERY single fault (sink/source factory, WriteTo, Read (failing at the beginning or at the end of the call), SetReadDeadline, SetPacketFilter incl. the second SACK filter, Close; k in 1..N+1; classes fatal / fatal with the looks of an OS timeout (outside Read) / spurious deadline / zero-length) is injected; oracle: (nil, error wrapping the injected sentinel) for fatal, same-success-or-clean-failure for a spurious deadline, never a partial result, every handle closed exactly once, nothing used after Close or after return, no goroutine or fd left; non-trivial = the fault fired at k >= 2 or in filter/factory code; exhaustive over that product", ranges))
 	rec.Exhaustive = true
 	RunCases(t, rec, func(yield func(*c10Case) bool) {
 		for _, r := range ranges {
@@ -476,6 +478,8 @@ func TestC10Multi(t *testing.T) {
 			f.Class = "fatal"
 			if f.Op == "Read" {
 				f.Class = oneOf(rt, fmt.Sprintf("f%d_class", i), "fatal", "deadline", "zero")
+			} else if f.Op != "Close" && f.Op != "New" {
+				f.Class = oneOf(rt, fmt.Sprintf("f%d_class", i), "fatal", "fatal", "fatal-timeout")
 			}
 			sc.Faults = append(sc.Faults, f)
 		}
